@@ -1247,6 +1247,7 @@ class C04(core.Check):
         origin = case.get("origin", 0) if partial else 0
         stale_cy = False            # partial display: a cursorless frame left _cy behind the terminal cursor
         ibmpc_stuck = False         # an earlier frame ended with the IBMPC mapping (SGR 11) still selected
+        abandoned_partial = False   # partial display: a frame was abandoned after it had updated _cy / _rows_used
         for k, (fr, rec) in enumerate(zip(case["frames"], aux["frames"])):
             if rec["op"] != "draw":
                 continue
@@ -1254,6 +1255,10 @@ class C04(core.Check):
             tag = "frame %d" % k
             if stale_cy:
                 tag += " [partial display after a frame without cursor]"
+            if abandoned_partial:
+                tag += " [partial display after a frame abandoned by SIGWINCH]"
+            if partial and fr.get("intr") is not None:
+                abandoned_partial = True
             if fr.get("badrows"):
                 if rec["err"] != "ValueError":
                     msgs.append(tag + ": size/rows mismatch not rejected with ValueError (%s)" % rec["err"])
@@ -1830,7 +1835,8 @@ class C04(core.Check):
         return any(f["toks"] for f in res["frames"])
 
     def signature(self, case, msg):
-        for tag in ("[partial display after a frame without cursor]", "[IBMPC charset left on by an earlier frame]",
+        for tag in ("[partial display after a frame abandoned by SIGWINCH]",
+                    "[partial display after a frame without cursor]", "[IBMPC charset left on by an earlier frame]",
                     "raised KeyError for an undefined palette name"):
             if tag in msg:
                 return tag
